@@ -184,6 +184,9 @@ theorem cache_InvalidateAll_c1_pin (t__nil : Bool) :
 theorem cache_InvalidateAll_c2_pin (c_writeBuffer_Size : BitVec 64) (len_nodes : BitVec 64) (threshold : BitVec 64) :
     Gen.CacheWrite.cache_InvalidateAll_c2 c_writeBuffer_Size len_nodes threshold = ((BitVec.slt (0#64) len_nodes) && (BitVec.ult c_writeBuffer_Size threshold)) := by pin_tac Gen.CacheWrite.cache_InvalidateAll_c2
 
+theorem cache_InvalidateAll_x0_pin (len_nodes : BitVec 64) :
+    Gen.CacheWrite.cache_InvalidateAll_x0 len_nodes = (len_nodes - (1#64)) := by pin_tac Gen.CacheWrite.cache_InvalidateAll_x0
+
 theorem cache_InvalidateAll_a2_pin (maxWriteBufferSize : BitVec 32) :
     Gen.CacheWrite.cache_InvalidateAll_a2 maxWriteBufferSize = (BitVec.setWidth 64 (maxWriteBufferSize / (2#32))) := by pin_tac Gen.CacheWrite.cache_InvalidateAll_a2
 
@@ -315,6 +318,7 @@ theorem siteParams_pin : Gen.CacheWrite.siteParams = [("cache_set_c0", ["oldVisi
   ("cache_InvalidateAll_c0", ["c_withMaintenance"]),
   ("cache_InvalidateAll_c1", ["t__nil"]),
   ("cache_InvalidateAll_c2", ["c_writeBuffer_Size", "len_nodes", "threshold"]),
+  ("cache_InvalidateAll_x0", ["len_nodes"]),
   ("cache_InvalidateAll_a2", ["maxWriteBufferSize"]),
   ("cache_InvalidateAll_a4", ["c_clock_NowNano"]),
   ("cache_runTask_c0", ["t__nil"]),
@@ -341,33 +345,33 @@ theorem siteParams_pin : Gen.CacheWrite.siteParams = [("cache_set_c0", ["oldVisi
   ("cache_evictNodes_c0", ["c_withEviction"]),
   ("cache_climb_c0", ["c_withEviction"])] := by rfl
 
-theorem shape_pin : Gen.CacheWrite.shape = [("cache_Set", [0, 0, 0, 1, 0]),
-  ("cache_SetIfAbsent", [0, 0, 0, 1, 0]),
-  ("cache_set", [4, 0, 4, 0, 0]),
-  ("cache_atomicSet", [3, 0, 5, 1, 0]),
-  ("cache_atomicDelete", [2, 0, 2, 1, 0]),
-  ("cache_Compute", [0, 0, 0, 1, 0]),
-  ("cache_ComputeIfAbsent", [3, 0, 2, 1, 0]),
-  ("cache_ComputeIfPresent", [2, 0, 2, 1, 0]),
-  ("cache_doCompute", [13, 0, 7, 0, 1]),
-  ("cache_afterWrite", [3, 0, 0, 0, 0]),
-  ("cache_Invalidate", [1, 0, 2, 0, 0]),
-  ("cache_deleteNodeFromMap", [2, 0, 2, 0, 0]),
-  ("cache_deleteNode", [0, 0, 0, 0, 0]),
-  ("cache_afterDelete", [3, 0, 1, 0, 0]),
-  ("cache_notifyDeletion", [1, 0, 0, 0, 0]),
-  ("cache_notifyAtomicDeletion", [1, 0, 0, 0, 0]),
-  ("cache_evictNode", [4, 0, 3, 0, 0]),
-  ("cache_evictNodeBySize", [0, 0, 0, 0, 0]),
-  ("cache_InvalidateAll", [3, 0, 7, 0, 0]),
-  ("cache_runTask", [8, 0, 2, 0, 0]),
-  ("cache_getTask", [1, 0, 4, 2, 0]),
-  ("cache_putTask", [0, 0, 4, 0, 0]),
-  ("cache_makeRetired", [1, 0, 0, 0, 0]),
-  ("cache_makeDead", [3, 0, 0, 0, 0]),
-  ("cache_onAccess", [3, 0, 0, 0, 0]),
-  ("cache_expireNodes", [1, 0, 0, 0, 0]),
-  ("cache_evictNodes", [1, 0, 0, 0, 0]),
-  ("cache_climb", [1, 0, 0, 0, 0])] := by rfl
+theorem shape_pin : Gen.CacheWrite.shape = [("cache_Set", [0, 0, 0, 1, 0, 0]),
+  ("cache_SetIfAbsent", [0, 0, 0, 1, 0, 0]),
+  ("cache_set", [4, 0, 4, 0, 0, 0]),
+  ("cache_atomicSet", [3, 0, 5, 1, 0, 0]),
+  ("cache_atomicDelete", [2, 0, 2, 1, 0, 0]),
+  ("cache_Compute", [0, 0, 0, 1, 0, 0]),
+  ("cache_ComputeIfAbsent", [3, 0, 2, 1, 0, 0]),
+  ("cache_ComputeIfPresent", [2, 0, 2, 1, 0, 0]),
+  ("cache_doCompute", [13, 0, 7, 0, 1, 0]),
+  ("cache_afterWrite", [3, 0, 0, 0, 0, 0]),
+  ("cache_Invalidate", [1, 0, 2, 0, 0, 0]),
+  ("cache_deleteNodeFromMap", [2, 0, 2, 0, 0, 0]),
+  ("cache_deleteNode", [0, 0, 0, 0, 0, 0]),
+  ("cache_afterDelete", [3, 0, 1, 0, 0, 0]),
+  ("cache_notifyDeletion", [1, 0, 0, 0, 0, 0]),
+  ("cache_notifyAtomicDeletion", [1, 0, 0, 0, 0, 0]),
+  ("cache_evictNode", [4, 0, 3, 0, 0, 0]),
+  ("cache_evictNodeBySize", [0, 0, 0, 0, 0, 0]),
+  ("cache_InvalidateAll", [3, 0, 7, 0, 0, 1]),
+  ("cache_runTask", [8, 0, 2, 0, 0, 0]),
+  ("cache_getTask", [1, 0, 4, 2, 0, 0]),
+  ("cache_putTask", [0, 0, 4, 0, 0, 0]),
+  ("cache_makeRetired", [1, 0, 0, 0, 0, 0]),
+  ("cache_makeDead", [3, 0, 0, 0, 0, 0]),
+  ("cache_onAccess", [3, 0, 0, 0, 0, 0]),
+  ("cache_expireNodes", [1, 0, 0, 0, 0, 0]),
+  ("cache_evictNodes", [1, 0, 0, 0, 0, 0]),
+  ("cache_climb", [1, 0, 0, 0, 0, 0])] := by rfl
 
 end OtterVerif.Pin.CacheWrite
